@@ -248,8 +248,12 @@ def _c_body(di, e):
     got = cells.parse_grid(kp.dumps(doc, encoding=(kp.Encoding.agnosticKern, kp.Encoding.agnosticExtendedKern)[e]))
     exp = D.expected(enc, to_agnostic=conv)
     check(got == exp, f'{enc} export {got}, expected (each note under the clef in force on its spine path) {exp}')
-    # differs from the kern export only in the pitch letters of notes
+    # differs from the kern export only in the pitch letters of notes; exporting in an agnostic encoding leaves the document as it was
     plain = cells.parse_grid(kp.dumps(doc, encoding=(kp.Encoding.normalizedKern, kp.Encoding.eKern)[e]))
+    if not has_nat:
+        check(plain == D.expected(('kern', 'ekern')[e]), f'the {("kern", "ekern")[e]} export AFTER an {enc} export is {plain}, expected {D.expected(("kern", "ekern")[e])}')
+        again = cells.parse_grid(kp.dumps(doc, encoding=(kp.Encoding.agnosticKern, kp.Encoding.agnosticExtendedKern)[e]))
+        check(again == got, f'a second {enc} export differs from the first: {again} vs {got}')
     check(len(plain) == len(got) and all(len(a) == len(b) for a, b in zip(plain, got)), 'grid differs from the kern export')
     flat = [c for r in D.rows for c in r]
     for (a, b, c) in zip([x for r in plain[1:] for x in r], [x for r in got[1:] for x in r], [c for r in D.rows[1:] for c in r]):
